@@ -40,18 +40,24 @@ res["demo_without_patch_rc"] = r2.returncode
 assert sh(f"git apply {out}/patch.diff").returncode == 0
 res["demo_ok"] = r1.returncode != 0 and r2.returncode == 0
 if "--no-suite" not in sys.argv:
-    r3 = sh("cargo nextest run --workspace --no-fail-fast --test-threads 8 --offline")
-    open(f"{out}/confirm_suite.log", "w").write(r3.stdout)
-    failed = sorted(set(re.findall(r"^\s+(?:FAIL|TIMEOUT|SIGABRT|SIGSEGV)\s+\[[^\]]*\]\s+(\S+)\s+(\S+)", r3.stdout, re.M)))
-    summary = re.findall(r"Summary.*", r3.stdout)
+    if "--reuse-log" in sys.argv and os.path.exists(f"{out}/confirm_suite.log"):
+        log = open(f"{out}/confirm_suite.log").read()
+    else:
+        log = sh("cargo nextest run --workspace --no-fail-fast --test-threads 8 --offline").stdout
+        open(f"{out}/confirm_suite.log", "w").write(log)
+    failed = sorted(set(re.findall(r"^\s+(?:FAIL|TIMEOUT|SIGABRT|SIGSEGV)\s+\[[^\]]*\]\s+\([^)]*\)\s+(\S+)\s+(\S+)", log, re.M)))
+    summary = re.findall(r"Summary.*", log)
     res["suite_summary"] = summary[-1] if summary else None
     broken = []
+    demo_tests = re.findall(r"\+\s*(?:async\s+)?fn\s+(test_\w+)", open(f"{out}/demo.diff").read())
     for crate, test in failed:
         if any(a in test for a in ALWAYS):
             continue
+        if any(test.endswith(d) for d in demo_tests):
+            continue  # the demonstration itself is expected to fail with the patch
         ok = False
         for _ in range(3):
-            rr = sh(f"cargo nextest run --offline -E 'test(={test})' --test-threads 2")
+            rr = sh(f"cargo nextest run --workspace --offline -E 'test(={test})' --test-threads 2")
             if rr.returncode == 0:
                 ok = True
                 break
